@@ -250,6 +250,27 @@ func ruleStrictConverge(c *Ctx, rule string, shorts ...string) {
 					key := fmt.Sprintf("%s/converging-loop#%d", funcName(fn), l.head.Index)
 					op := effectiveOp(bf, true)
 					if op == token.LSS || op == token.GTR {
+						// the positions stop before they meet: the letter in the middle of an odd-length sequence is
+						// complemented separately, under a test that the two positions have met
+						middle := false
+						for _, b := range fn.Blocks {
+							if l.body[b] {
+								continue
+							}
+							ifi, ok := b.Instrs[len(b.Instrs)-1].(*ssa.If)
+							if !ok {
+								continue
+							}
+							if eq, ok := ifi.Cond.(*ssa.BinOp); ok && (eq.Op == token.EQL || eq.Op == token.NEQ) {
+								if (eq.X == ssa.Value(pi) && eq.Y == ssa.Value(pj)) || (eq.X == ssa.Value(pj) && eq.Y == ssa.Value(pi)) {
+									middle = true
+								}
+							}
+						}
+						if !middle {
+							c.bad(rule, key, bf.cond.Pos(), "the loop that exchanges and complements the two ends stops while "+pi.Comment+" "+op.String()+" "+pj.Comment+" and nothing afterwards tests whether the two positions have met: the middle letter of an odd-length sequence is left uncomplemented, so reverse-complementing gives a wrong middle letter")
+							continue
+						}
 						c.ok(rule, key, bf.cond.Pos(), "the two positions are exchanged only while they differ")
 					} else if readsBeforeWrites(l) {
 						c.ok(rule, key, bf.cond.Pos(), "the positions may meet, but each round reads both ends before it writes either (one parallel assignment): the middle letter exchanged with itself ends up complemented once")
